@@ -50,13 +50,18 @@ def inner_texts(rng, tier):
            "select '\\'' from t", "select a\n\n\nfrom t", "  select 1", "select 1   ", "select\t1",
            "(select a from t1 where b = 1) union (select a from t2 where c in (2, 3))", "(select 1)", "((select 1))",
            "(select a from t) union all (select b from u)", "select a from t where b in (1, 2)", "(select a\n from t)\n union\n (select b\n\n from u)",
-           "select a -- c\n\n -- d\n from t", "select a\n\n  , b\n\n\n  from t where c = (1)"]
+           "select a -- c\n\n -- d\n from t", "select a\n\n  , b\n\n\n  from t where c = (1)",
+           # characters that mean something between tokens, inside string literals and quoted names
+           "select replace(tags, ';', ',') as tags from files.posts where sep = ';'", "select 'a;b', 'a;  b', ';;', 'x; y' from t",
+           "select '(', ')', '((', 'a)b' from t where c = '--x' and d = '/* y */'", 'select ";", "a,b", `c;d`, `e(f` from t',
+           "select split(x, ';'), ',' from t where y in (';', ',', '.')", "select '@v', '@@sv', '`q`', '\"' from t"]
     base = [s for s in harvest()[D] if '(' not in s or s.count('(') == s.count(')')]
     rng.shuffle(base)
     out += [s for s in base[: (60 if tier == 'quick' else 400)] if s.lower().lstrip().startswith('select')]
     frags = ["'a'", "''", "'it''s'", "'\\''", '"q"', '@v', '@@s', '`x y`', '1.0', '42', 'a.b', '(1)', '( )', '-- c\n', '/* m\n */',
              ' ', '  ', '\n', '\n  ', ',', '=', 'select', 'from', 't', 'where', 'x', '*', '+',
-             "'p\nq'||r", "'p\nq',s", '"m\nn"=k', "'a\n\nb'||c and d", '/* x\n y */z']
+             "'p\nq'||r", "'p\nq',s", '"m\nn"=k', "'a\n\nb'||c and d", '/* x\n y */z',
+             "';'", "'a;b'", "'; '", "';;'", "'('", "')'", "'--'", "'/*'", "','", '";"', '`a;b`', "'a ;  b'"]
     for _ in range(150 if tier == 'quick' else 3000):
         n = rng.randint(2, 10)
         s = 'select ' + ' '.join(rng.choice(frags) for _ in range(n))
